@@ -3,6 +3,7 @@ package main
 import (
 	"bufio"
 	"fmt"
+	"gopkg.in/src-d/hercules.v10/verifharness/hv"
 	"io/ioutil"
 	"math/rand"
 	"os"
@@ -68,6 +69,61 @@ func main() {
 	defer os.RemoveAll(dir)
 	path := dir + "/arena"
 	kinds := map[string]int{}
+	// the LZ4 binding the hibernation relies on (assumed lossless by the model): round trip of columns of every
+	// compressibility and size, including incompressible ones far beyond the sizes of the arenas below
+	for it := 0; it < count; it += 25 {
+		rng := rand.New(rand.NewSource(seed*31 + int64(it)))
+		n := 1 + rng.Intn(60000)
+		if rng.Intn(2) == 0 {
+			n = 1 + rng.Intn(3000)
+		}
+		data := make([]uint32, n)
+		switch rng.Intn(4) {
+		case 0: // incompressible
+			for i := range data {
+				data[i] = rng.Uint32()
+			}
+		case 1: // small values, like node keys
+			for i := range data {
+				data[i] = uint32(rng.Intn(50))
+			}
+		case 2: // runs
+			v := rng.Uint32()
+			for i := range data {
+				if rng.Intn(40) == 0 {
+					v = rng.Uint32()
+				}
+				data[i] = v
+			}
+		default: // mixed
+			for i := range data {
+				if rng.Intn(3) == 0 {
+					data[i] = rng.Uint32()
+				}
+			}
+		}
+		kinds["lz4_columns"]++
+		func() {
+			defer func() {
+				if r := recover(); r != nil {
+					hv.Fail("lz4-roundtrip", fmt.Sprintf(`{"lz4_seed":%d,"words":%d}`, seed*31+int64(it), n), fmt.Sprintf("panic: %v", r))
+				}
+			}()
+			packed := rbtree.CompressUInt32Slice(data)
+			if len(packed) == 0 {
+				hv.Fail("lz4-roundtrip", fmt.Sprintf(`{"lz4_seed":%d,"words":%d}`, seed*31+int64(it), n), "a non-empty column was compressed to nothing")
+				return
+			}
+			back := make([]uint32, n)
+			rbtree.DecompressUInt32Slice(packed, back)
+			for i := range data {
+				if back[i] != data[i] {
+					hv.Fail("lz4-roundtrip", fmt.Sprintf(`{"lz4_seed":%d,"words":%d}`, seed*31+int64(it), n), fmt.Sprintf("word %d reads back as %d, written %d", i, back[i], data[i]))
+					return
+				}
+			}
+		}()
+	}
 	for it := 0; it < count; it++ {
 		rng := rand.New(rand.NewSource(seed + int64(it)))
 		a := rbtree.NewAllocator()
@@ -167,5 +223,5 @@ func main() {
 			}
 		}
 	}
-	fmt.Fprintln(os.Stderr, kinds)
+	hv.Stats(kinds)
 }
